@@ -287,18 +287,8 @@ func (c *Ctx) ViolatedHard(rule, fn, construct, detail string, pos token.Pos) {
 func (p *Prog) newHelperCalledBy(fn string) string {
 	if p.baseFuncs == nil {
 		p.baseFuncs = map[string]bool{}
-		if b, err := os.ReadFile(filepath.Join(verifDir, "baseline_funcs.txt")); err == nil {
-			for _, l := range strings.Split(string(b), "\n") {
-				if l = strings.TrimSpace(l); l != "" {
-					p.baseFuncs[l] = true
-				}
-			}
-		} else if b, err := os.ReadFile("/verif/baseline_funcs.txt"); err == nil {
-			for _, l := range strings.Split(string(b), "\n") {
-				if l = strings.TrimSpace(l); l != "" {
-					p.baseFuncs[l] = true
-				}
-			}
+		for name := range loadBaseline() {
+			p.baseFuncs[name] = true
 		}
 		p.byName = map[string]*ssa.Function{}
 		for f := range p.AllFns {
@@ -576,4 +566,56 @@ func (p *Prog) findVarInit(pkg, name string) (ast.Expr, *packages.Package) {
 		}
 	}
 	return nil, pk
+}
+
+// ---- reference list of functions and their parameter names
+
+var baselineTab map[string][]string
+
+// loadBaseline reads baseline_funcs.txt: one repository function per line, optionally followed by a tab and the
+// comma-separated names of its parameters (receiver first) at the time the rules were written.
+func loadBaseline() map[string][]string {
+	if baselineTab != nil {
+		return baselineTab
+	}
+	baselineTab = map[string][]string{}
+	b, err := os.ReadFile(filepath.Join(verifDir, "baseline_funcs.txt"))
+	if err != nil {
+		b, err = os.ReadFile("/verif/baseline_funcs.txt")
+	}
+	if err != nil {
+		return baselineTab
+	}
+	for _, l := range strings.Split(string(b), "\n") {
+		if l = strings.TrimSpace(l); l == "" {
+			continue
+		}
+		parts := strings.SplitN(l, "\t", 2)
+		var ps []string
+		if len(parts) == 2 && parts[1] != "" {
+			ps = strings.Split(parts[1], ",")
+		}
+		baselineTab[parts[0]] = ps
+	}
+	return baselineTab
+}
+
+// pname: the name the rules know a parameter by — the name it had on the reference tree (same function, same
+// position, same number of parameters), so that renaming a parameter does not change any canonical form; the current
+// name otherwise.
+func pname(p *ssa.Parameter) string {
+	f := p.Parent()
+	if f == nil || f.Parent() != nil {
+		return p.Name()
+	}
+	ps, ok := loadBaseline()[fname(f)]
+	if !ok || len(ps) != len(f.Params) {
+		return p.Name()
+	}
+	for i, q := range f.Params {
+		if q == p && ps[i] != "" {
+			return ps[i]
+		}
+	}
+	return p.Name()
 }
